@@ -955,6 +955,7 @@ func (x *Exec) execFor(s *ast.ForStmt, lab *ast.LabeledStmt, st *State, env *Env
 
 func (x *Exec) markGhostsInLoop(body ast.Node) {
 	// ghost variables assigned by anchors whose pattern matches a statement inside the loop body
+	x.ghostInLoop = map[string]bool{}
 	if x.ct == nil {
 		return
 	}
